@@ -115,7 +115,7 @@ impl Served {
     let thread = std::thread::spawn(move || {
       let _ = server.run(settings, index, h2, Some(tx));
     });
-    let port = rx.recv_timeout(std::time::Duration::from_secs(30)).expect("server did not start");
+    let port = rx.recv_timeout(std::time::Duration::from_secs(180)).expect("server did not start");
     Served { port, handle, thread: Some(thread) }
   }
 
